@@ -187,16 +187,17 @@ Owns(P, x, g) ==
                              \/ (v \in {"PRIVMSG", "NOTICE"} /\ x.secretTarget /\ IsOut(g) /\ g.a = "r")))
       [] P = "C13" -> \/ (x.perr /\ (IsSt(g) \/ IsOut(g)))
                       \/ (IsOut(g) /\ g.b \in {"421", "461", "472", "501", "696", "417", "UNPARSABLE"})
-      [] P = "C14" -> x.masky /\ ((IsOut(g) /\ g.b \in {"474", "473", "404", "491", "367", "348", "346", "MODE", "352", "311"})
+      [] P = "C14" -> \/ (IsSt(g) /\ g.a \in {"users", "conns"} /\ g.b = "src")      \* the text that masks are compared with
+                      \/ (x.masky /\ ((IsOut(g) /\ g.b \in {"474", "473", "404", "491", "367", "348", "346", "MODE", "352", "311"})
                                   \/ (IsSt(g) /\ g.a = "chans" /\ g.b \in {"ban", "exc", "invex"})
-                                  \/ (g.t = "run" /\ g.a \in {"dead", "panic"}))
+                                  \/ (g.t = "run" /\ g.a \in {"dead", "panic"})))
       [] P = "C15" -> x.authed /\ ~x.perr /\ v = "NICK" /\ (IsSt(g) \/ IsOut(g))
       [] P = "C16" -> \/ (IsSt(g) /\ g.a = "chans" /\ g.b \in {"domain", "preconf", "def"})
                       \/ (g.t = "inv" /\ g.a = "emptychan")
                       \/ (x.creates /\ IsSt(g) /\ g.a = "chans")
                       \/ (x.preconfJoin /\ Membership(g))
       [] P = "C17" -> x.authed /\ v \in {"PING", "PONG"} /\ (IsSt(g) \/ IsOut(g))
-      [] P = "C18" -> FALSE
+      [] P = "C18" -> g.t = "run" /\ g.a = "issue"      \* "keeps answering every live connection" (the rest of C18 is decided by TraceLin)
       [] P = "C19" -> \/ (IsSt(g) /\ g.a \in {"invCnt", "operCnt", "maxUsers", "connCnt"})
                       \/ (g.t = "inv" /\ g.a = "counters")
                       \/ (x.authed /\ ~x.perr /\ v \in {"LUSERS", "ISON", "USERHOST"} /\ IsOut(g))
